@@ -335,8 +335,19 @@ struct ClientRef {
     left_pool: bool,
 }
 
+/// Messages that matter for the oracles: queries and Parse. Transaction
+/// control issued by tokio-postgres on behalf of the *user's* transaction
+/// (START TRANSACTION / COMMIT / ROLLBACK, the latter also sent lazily when a
+/// transaction object is dropped) is the user's traffic, not the pool's.
 fn significant(log: &[Msg]) -> Vec<Msg> {
-    log.iter().filter(|m| matches!(m, Msg::Query(_) | Msg::Parse { .. })).cloned().collect()
+    log.iter()
+        .filter(|m| match m {
+            Msg::Query(q) => !matches!(q.as_str(), "START TRANSACTION" | "BEGIN" | "COMMIT" | "ROLLBACK"),
+            Msg::Parse { .. } => true,
+            _ => false,
+        })
+        .cloned()
+        .collect()
 }
 
 pub fn run_c16(sc: &C16Scenario) -> Outcome {
@@ -377,7 +388,7 @@ async fn run_inner(sc: &C16Scenario) -> u64 {
             Get,
             Return(usize),
             Take(usize),
-            Prepare(usize, usize, usize, bool),
+            Prepare(usize, usize, usize, bool, bool),
             CacheClear(usize),
             CacheRemove(usize, usize, usize),
             RegClear,
@@ -394,10 +405,13 @@ async fn run_inner(sc: &C16Scenario) -> u64 {
         }
         for j in 0..held.len() {
             ops.push(Op::Return(j));
-            ops.push(Op::Prepare(j, 0, 1, true));
-            ops.push(Op::Prepare(j, 0, 2, true));
-            ops.push(Op::Prepare(j, 0, 0, false));
-            ops.push(Op::Prepare(j, 1, 1, true));
+            ops.push(Op::Prepare(j, 0, 1, true, false));
+            ops.push(Op::Prepare(j, 0, 2, true, false));
+            ops.push(Op::Prepare(j, 0, 0, false, false));
+            ops.push(Op::Prepare(j, 1, 1, true, false));
+            // through a transaction (shares the client's statement cache)
+            ops.push(Op::Prepare(j, 0, 1, true, true));
+            ops.push(Op::Prepare(j, 0, 0, false, true));
             ops.push(Op::Take(j));
             ops.push(Op::CacheClear(j));
             ops.push(Op::CacheRemove(j, 0, 1));
@@ -482,15 +496,29 @@ async fn run_inner(sc: &C16Scenario) -> u64 {
                 }
                 taken.push((cw, id));
             }
-            Op::Prepare(j, qi, ti, typed) => {
-                let (o, id) = &held[j];
+            Op::Prepare(j, qi, ti, typed, in_tx) => {
+                let (o, id) = &mut held[j];
                 let id = *id;
                 let q = QUERIES[qi];
                 let types = if typed { types_of(ti) } else { vec![] };
                 let key = (q.to_string(), types.iter().map(|t| t.oid()).collect::<Vec<u32>>());
                 let before = w(|w| significant(&w.conns[id].log));
-                let r = if typed { o.prepare_typed_cached(q, &types).await } else { o.prepare_cached(q).await };
-                let after = w(|w| significant(&w.conns[id].log));
+                let raw_before = w(|w| w.conns[id].log.len());
+                let r = if in_tx {
+                    match o.transaction().await {
+                        Ok(tx) => {
+                            let r = if typed { tx.prepare_typed_cached(q, &types).await } else { tx.prepare_cached(q).await };
+                            let _ = tx.commit().await;
+                            r
+                        }
+                        Err(e) => Err(e),
+                    }
+                } else if typed {
+                    o.prepare_typed_cached(q, &types).await
+                } else {
+                    o.prepare_cached(q).await
+                };
+                let after: Vec<Msg> = w(|w| significant(&w.conns[id].log));
                 let others_changed = false;
                 let _ = others_changed;
                 let hit = refs[&id].keys.contains(&key);
@@ -520,7 +548,7 @@ async fn run_inner(sc: &C16Scenario) -> u64 {
                     }
                     Err(e) => {
                         trace!("  prepare failed: {}", e);
-                        if after.len() == before.len() && !w(|w| w.conns[id].close) {
+                        if w(|w| w.conns[id].log.len()) == raw_before && !w(|w| w.conns[id].close) {
                             bad("prepare-error-without-traffic", format!("prepare failed without talking to the server: {}", e));
                         }
                     }
@@ -670,7 +698,7 @@ pub fn scenarios(tier: Tier) -> Vec<Scenario> {
         for ms in [1usize, 2] {
             let depth = match (thorough, ms) {
                 (false, 1) => 5,
-                (false, _) => 5,
+                (false, _) => 4,
                 (true, 1) => 8,
                 (true, _) => 6,
             };
